@@ -33,6 +33,11 @@ MCW_Type     == 2
 MCW_Universe == {<<N(<<x>>)>> : x \in {<<a>>, <<b>>}}
 MCW_Owner    == <<STAR, <<a>>>>
 
+\* --- a wildcard owner below an asterisk label that is not a wildcard (RFC 4592 2.1.1: "*.s.*.a")
+MCI_Type     == 2
+MCI_Universe == {<<N(<<x>>)>> : x \in {<<a>>, <<b>>}}
+MCI_Owner    == <<STAR, <<115>>, STAR, <<a>>>>
+
 \* --- a name whose case is significant (type NSEC, RFC 6840 5.1), followed by octets
 MCS_Type     == 47
 MCS_Universe == {<<N(n), B(<<0, 1, x>>)>> : n \in {<<x>> : x \in Lab}, x \in {0, 64}}
